@@ -341,7 +341,7 @@ func (c *Check) unsymbolizedFramesInTree() {
 	}
 	g := newGuardEngine(p)
 	n := 0
-	for _, b := range f.Blocks {
+	for _, b := range helperBlocks(f, 2) {
 		for _, ins := range b.Instrs {
 			call, ok := ins.(*ssa.Call)
 			if !ok || call.Call.StaticCallee() == nil || call.Call.StaticCallee().Name() != "findOrInsertLine" {
@@ -528,6 +528,9 @@ func (c *Check) meanDivisorNeverSkipped() {
 				if !ok || call.Call.StaticCallee() == nil {
 					continue
 				}
+				if !isNodeAccumulation(call) {
+					continue
+				}
 				switch call.Call.StaticCallee().Name() {
 				case "addSample", "AddToEdgeDiv":
 					acc = append(acc, call)
@@ -653,7 +656,7 @@ func (c *Check) meanDivisorNeverSkipped() {
 			// the per-sample body may be a helper (or method) called from the sample loop
 			for _, es := range effectiveSites(f, func(ins ssa.Instruction) bool {
 				call, ok := ins.(*ssa.Call)
-				return ok && call.Call.StaticCallee() != nil && (call.Call.StaticCallee().Name() == "addSample" || call.Call.StaticCallee().Name() == "AddToEdgeDiv")
+				return ok && isNodeAccumulation(call)
 			}, 2) {
 				if es.via != nil {
 					if call, ok := es.at.(*ssa.Call); ok {
@@ -698,9 +701,9 @@ func (c *Check) meanDivisorNeverSkipped() {
 			// stage A: in the sample loop of f, the call of the helper is reached whenever the
 			// divisor argument is non-zero; stage B: in the helper, the frame loop is reached
 			// whenever the divisor parameter is non-zero
-			par, ok := dw.(*ssa.Parameter)
+			par, isPar := dw.(*ssa.Parameter)
 			k := -1
-			if ok {
+			if isPar {
 				for i, q := range helper.Params {
 					if q == par {
 						k = i
@@ -709,7 +712,7 @@ func (c *Check) meanDivisorNeverSkipped() {
 			}
 			outer := loopsAround([]*ssa.BasicBlock{site.Block()})
 			inner := loopsAround(accBlocks)
-			if k < 0 || k >= len(site.Call.Args) || len(outer) < 1 || len(inner) < 1 {
+			if (isPar && (k < 0 || k >= len(site.Call.Args))) || len(outer) < 1 || len(inner) < 1 {
 				c.undecided("C04-R4", key, p.relFile(f.Pos()), "sample loop / frame loop of "+name+" not recognised (per-sample helper "+fnName(helper)+")")
 				continue
 			}
@@ -721,7 +724,13 @@ func (c *Check) meanDivisorNeverSkipped() {
 					starts = append(starts, sc)
 				}
 			}
-			skipAt = avoids(site.Call.Args[k], starts, site.Block(), hdr, loop)
+			if isPar {
+				skipAt = avoids(site.Call.Args[k], starts, site.Block(), hdr, loop)
+			} else {
+				// the divisor is computed inside the helper: the helper must be called for
+				// every sample, whatever the sample is
+				skipAt = avoids(nil, starts, site.Block(), hdr, loop)
+			}
 			if skipAt == nil {
 				skipAt = avoids(dw, []*ssa.BasicBlock{helper.Blocks[0]}, inner[0], nil, nil)
 			}
@@ -891,4 +900,15 @@ func fieldPairOfOneObject(x, y ssa.Value) (T, fx, fy string, ok bool) {
 		return "", "", "", false
 	}
 	return tx, nx, ny, true
+}
+
+// isNodeAccumulation: a call of (*graph.Node).addSample or (*graph.Node).AddToEdgeDiv (not of
+// another method that happens to have one of those names).
+func isNodeAccumulation(call *ssa.Call) bool {
+	callee := call.Call.StaticCallee()
+	if callee == nil || (callee.Name() != "addSample" && callee.Name() != "AddToEdgeDiv") {
+		return false
+	}
+	recv := callee.Signature.Recv()
+	return recv != nil && structName(recv.Type()) == "graph.Node"
 }
